@@ -112,6 +112,12 @@ def noEoiB (G : Grammar) : Bool := G.prods.all fun p => !(p.rhs.contains (Sym.t 
 /-- the non-terminals are `0..n-1` (then `ntIndex` is the identity and the tables denote `G` itself) -/
 def ntsDenseB (G : Grammar) : Bool := ntsOf G == List.range (ntsOf G).length
 
+/-- the executable form of the hypotheses of the pipeline theorems (`PipelineHyp`, Props/C01c.lean):
+    the model of `check_and_transform_grammar`'s checks passes (productive, reachable, no left
+    recursion), no terminal 0, dense non-terminal numbers -/
+def pipelineHypB (G : Grammar) : Bool :=
+  decide (checkGrammar G true [] = .ok .passed) && noEoiB G && ntsDenseB G
+
 /-! ## protocol -/
 
 def showPT : PT → String
@@ -164,26 +170,29 @@ def handleGenTables : List String → Option String
     | .error e => some (showGenErr e)
   | _ => none
 
--- @handler gen-tables-check handleGenTablesCheck
-/-- Oracle `gen-tables-check <start> <prods> <K> <reply…>`: decides the hypotheses of
-    `pipeline_end_to_end` on the grammar (`checkGrammar … = passed`, no terminal 0, dense
-    non-terminals) and, if they hold and the implementation answered with tables, that these tables
-    denote the grammar itself (`gOf T = G`). Grammars outside the class: `ok` (nothing claimed). -/
-def handleGenTablesCheck : List String → Option String
-  | st :: ps :: _maxk :: reply => do
+-- @handler gen-tables-match handleGenTablesMatch
+/-- `gen-tables-match <start> <tprods> <K> <rstart> <rprods> <rdfas>` → `ok` | `fail <why>`:
+    the tables parol REALLY generated (`<rstart> <rprods> <rdfas>`, e.g. words 1–3 of a C01 case
+    line) are the tables `genTables` computes from the transformed grammar `<start> <tprods>` (in
+    parol's own numbering, word 13 of a C01 case line) with the same lookahead limit. The
+    `is_push_production` flags are not compared (they come from production attributes, which a
+    plain `Grammar` does not carry). -/
+def handleGenTablesMatch : List String → Option String
+  | [st, ps, maxk, rst, rps, rds] => do
     let G ← parseGrammar st ps
-    if !(decide (checkGrammar G true [] = .ok .passed) && noEoiB G && ntsDenseB G) then some "ok" else
-    match reply with
-    | [rst, rps, rds] => do
-      let rst ← rst.toNat?
-      let rps ← parseLLProds rps
-      let _ ← parseDfas rds
-      if rst != G.start then some "fail start-symbol-index" else
-      if rps.map (fun p => (p.lhs, p.rhsRev.reverse, p.push)) !=
-          G.prods.map (fun r => (r.lhs, r.rhs.map (genSym G), false)) then
-        some "fail productions-do-not-denote-the-grammar"
-      else some "ok"
-    | _ => some "ok"
+    let maxk ← maxk.toNat?
+    let rst ← rst.toNat?
+    let rps ← parseLLProds rps
+    let rds ← parseDfas rds
+    if G.prods.isEmpty || maxk > 10 then none else
+    match genTables G maxk driverFuel with
+    | .error e => some s!"fail model-generator-answers:{(showGenErr e).replace " " "-"}"
+    | .ok T =>
+      if T.start != rst then some "fail start-symbol-index" else
+      if T.prods.map (fun p => (p.lhs, p.rhsRev)) != rps.map (fun p => (p.lhs, p.rhsRev)) then
+        some "fail productions-differ" else
+      if T.dfas != rds then
+        some s!"fail automata-differ:model={";".intercalate (T.dfas.map showLaDfa)}" else some "ok"
   | _ => none
 
 end ParolModel
